@@ -124,7 +124,13 @@ impl<'a> Remote<'a> {
                     .with(|waker| cx.waker().will_wake(unsafe { (&*waker).assume_init_ref() }))
             {
                 // Waker is already up-to-date, leave it in place.
-                self.header().state.finish_setting_waker::<true>();
+                let after = self.header().state.finish_setting_waker::<true>();
+                if after.is_completed() || after.is_cancelled() {
+                    // The task finished inside the critical section: the executor saw
+                    // SETTING_WAKER and skipped the wake-up, so look again ourselves.
+                    state = self.state();
+                    continue;
+                }
                 break Poll::Pending;
             }
 
@@ -143,7 +149,13 @@ impl<'a> Remote<'a> {
                 waker.write(cx.waker().clone());
             });
 
-            self.header().state.finish_setting_waker::<true>();
+            let after = self.header().state.finish_setting_waker::<true>();
+            if after.is_completed() || after.is_cancelled() {
+                // The task finished inside the critical section: the executor saw
+                // SETTING_WAKER and skipped the wake-up, so look again ourselves.
+                state = self.state();
+                continue;
+            }
 
             break Poll::Pending;
         }
